@@ -40,9 +40,13 @@ def with_ode(vc, mv):
         mv.obj.fields['_ode'] = m
         return m
     vc.summary('pygom.model.deterministic:DeterministicOde.get_ode_eqn', summ)
+    # the object may have been used before (C08: and modified since): whatever an earlier derivation left in self._ode is an
+    # arbitrary, possibly stale, system -- a derivative generator that reads it without re-deriving the ODE is wrong
+    STALE = z3.Function('STALE_ODE', I, Expr)
+    mv.obj.fields['_ode'] = SMatrix(mv.nS, 1, z3.Lambda([i, j], STALE(i)))
 
 
-@contract('C03/get_jacobian_eqn', ['C03', 'C13'], DETM + 'get_jacobian_eqn')
+@contract('C03/get_jacobian_eqn', ['C03', 'C13', 'C08'], DETM + 'get_jacobian_eqn')
 def jacobian(vc):
     """jacobian[i,j] = D(ode_i, state symbol j); the simplification pass changes nothing"""
     mv = ModelView(vc)
@@ -69,7 +73,7 @@ def jacobian(vc):
               z3.ForAll([a, b], z3.Implies(z3.And(a >= 0, a < nS, b >= 0, b < nS), z3.Select(m.arr, a, b) == D(ODE(a), s_sym(b)))))
 
 
-@contract('C03/get_grad_eqn', ['C03', 'C13'], DETM + 'get_grad_eqn')
+@contract('C03/get_grad_eqn', ['C03', 'C13', 'C08'], DETM + 'get_grad_eqn')
 def grad(vc):
     """grad[i,k] = D(ode_i, parameter symbol k)"""
     mv = ModelView(vc)
@@ -99,7 +103,7 @@ def grad(vc):
               z3.ForAll([a, b], z3.Implies(z3.And(a >= 0, a < nS, b >= 0, b < nP), z3.Select(m.arr, a, b) == D(ODE(a), p_sym(b)))))
 
 
-@contract('C03/get_grad_jacobian_eqn', ['C03', 'C13'], DETM + 'get_grad_jacobian_eqn')
+@contract('C03/get_grad_jacobian_eqn', ['C03', 'C13', 'C08'], DETM + 'get_grad_jacobian_eqn')
 def grad_jacobian(vc):
     """grad_jacobian[k*nS+i, j] = D(grad[i,k], state symbol j)"""
     mv = ModelView(vc)
@@ -141,7 +145,7 @@ def grad_jacobian(vc):
               z3.ForAll([k2, i2, j2], z3.Implies(rng, z3.Select(m.arr, k2 * nS + i2, j2) == D(GRD(i2, k2), s_sym(j2)))))
 
 
-@contract('C03/get_diff_jacobian_eqn', ['C03', 'C13'], DETM + 'get_diff_jacobian_eqn', max_paths=4000)
+@contract('C03/get_diff_jacobian_eqn', ['C03', 'C13', 'C08'], DETM + 'get_diff_jacobian_eqn', max_paths=4000)
 def diff_jacobian(vc):
     """diff_jacobian[e*nS + a, b] = D(D(ode_e, s_a), s_b): one nS x nS block per equation, stacked in order"""
     from pyvc.lib_sympy import SMatList, ZERO
